@@ -8,7 +8,7 @@ LOOM = "exhaustive thread-interleaving exploration of the real code under loom (
 
 CHECKS = {
  "C05": dict(design="5 (C05)", tech=SEQ,
-   text="Every sequence of vector mutators (all in-range arguments), entry operations, committed transactions, subscription points and poll placements up to depth 4 (quick) / 5 (thorough) on vectors of length <= 4 from every initial length 0..3 is executed on the real ObservableVector with 1-3 real subscribers; after every call the published message must take the pre-state to the post-state, be exactly one diff for a direct call and nothing for the documented no-ops, and every subscriber (plain or batched, however it is polled) must receive exactly the diffs an always-drained batched subscriber received. Exhaustive within the bounds, which is the right level for an 'all histories, all polling patterns' statement that needs no concurrency.",
+   text="Every sequence of vector mutators (all in-range arguments), entry operations, committed transactions, subscription points and poll placements up to depth 4 (quick) / 5 (thorough) on vectors of length <= 4 from every initial length 0..3 is executed on the real ObservableVector with 1-3 real subscribers; after every call the published message must take the pre-state to the post-state, be exactly one diff for a direct call and nothing for the documented no-ops, and every subscriber (plain or batched, however it is polled) must receive exactly the diffs an always-drained batched subscriber received - also when the vector is dropped while diffs are still undelivered (drop epilogue: a stream that ends before it delivered them is reported). Exhaustive within the bounds, which is the right level for an 'all histories, all polling patterns' statement that needs no concurrency.",
    note="capacity 16 >= depth (no lag); tokio broadcast, imbl trusted; bounds as in evidence.coverage.bounds"),
  "C06": dict(design="5 (C06)", tech=SEQ,
    text="Capacities 1, 2, 3 (ring of 4) and 16; every sequence over a reduced alphabet (one mutator per diff kind, transactions, polls of manual subscribers) to depth 6-7 (quick) / 7-8 (thorough) plus the full alphabet to depth 4/5 for capacities 1-2. A Reset is accepted only when more than `capacity` messages were pending for that subscriber (counted from message boundaries learned from an always-drained subscriber), must carry the current contents, every Pending answer requires replica == contents, every diff must be applicable, every batched item must bring the replica up to date. A second engine (mc_pause, library built with the pause hooks) enumerates which sender operations run at which pause point inside a poll (before each try_recv of the batched drain loop and of handle_lag), capacities 1-2, depth 5/6: sender/receiver interleavings within one poll.",
@@ -35,10 +35,10 @@ CHECKS = {
    text="All 400 chains of two stages over a menu of 20 stage kinds (head/tail/skip static, dynamic via Observable, dynamic via queue, dynamic with initial value; filter, filter_map, sort, sort_by, sort_by_key), both flavours, six initial vectors, full alphabet depth 2 (quick) / 3 (thorough) and reduced alphabet depth 3/4 (incl. capacity 1); chains of three stages (10 kinds quick, 20 thorough) depth 2/3; and the 'adapter itself as observer' form (dynamic head/skip value with the next stage built directly on it, no tap in between; dynamic-with-initial-value head/tail/skip kept as values so that into_parts runs with a non-zero limit). A tap between all stages gives every stage its own input and view replica; every stage is checked against the stage below it from the initial values on.",
    note="found the into_parts defect repaired by repo commit e6f750d; F5 and F7 surface in chains with their single-stage signatures"),
  "C13": dict(design="5 (C13)", tech=SEQ,
-   text="Batched flavour with multi-operation transactions: every fixed-parameter adapter (static head/tail/skip 0..3, filter, filter_map, sort*) and 49 fixed two-stage chains run next to the same chain on a plain subscriber of the same vector; whenever both are quiescent the flattened diff lists must be identical; no batch may be empty; after every batch (one source batch or one limit change) the view must equal the adapter's view of its input, which below the chain is a state the vector had between top-level operations. Dynamic adapters and lag (capacity 1) are covered in batched flavour without twin. Depth 3/4 (full alphabet), 4/5 (reduced).",
+   text="Batched flavour with multi-operation transactions: every fixed-parameter adapter (static head/tail/skip 0..3, filter, filter_map, sort*) and 49 fixed two-stage chains run next to the same chain on a plain subscriber of the same vector; whenever both are quiescent (also at the end of the streams after the vector was dropped) the flattened diff lists must be identical; no batch may be empty; after every batch (one source batch or one limit change) the view must equal the adapter's view of its input, which below the chain is a state the vector had between top-level operations. Dynamic adapters and lag (capacity 1) are covered in batched flavour without twin. Depth 3/4 (full alphabet), 4/5 (reduced).",
    note="view divergences in batched configurations are blamed on C13 in this check; F5/F7 recognised by signature"),
  "C14": dict(design="5 (C14)", tech=SEQ,
-   text="Polls are tokens, so every placement of a poll relative to every source update, limit/count change, limit-source drop and vector drop is enumerated (manual polling, depth 4/5 reduced and 2/3 full alphabet for single adapters incl. all limit sources, depth 3/4 for all 400 two-stage chains; plain and batched subscriber streams themselves to depth 5/7). Every poll gets a fresh flag waker; a stream that answers Ready after a Pending poll whose waker was never woken is a violation; for the subscriber streams the waker must already be woken when the broadcasting call (or the drop) returns.",
+   text="Polls are tokens, so every placement of a poll relative to every source update, limit/count change, limit-source drop and vector drop is enumerated (manual polling, depth 4/5 reduced and 2/3 full alphabet for single adapters incl. all limit sources, depth 3/4 for all 400 two-stage chains; plain and batched subscriber streams themselves to depth 5/7). Every poll gets a fresh flag waker; a stream that answers Ready after a Pending poll whose waker was never woken is a violation; for the subscriber streams the waker must already be woken when the broadcasting call (or the drop) returns; an adapter may answer Pending only if the stream below it answered Pending to the same poll (sweep c14-bursts: runs of 33 and 70 updates between two polls).",
    note="spurious wake-ups are allowed; the queue limit source registers wakers correctly by construction"),
  "C15": dict(design="5 (C15)", tech=SEQ,
    text="Static Head and Tail with limits 0..4, both flavours, capacities 16 and 1, initial vectors 0..3 (0..4 in the deep sweep): every sequence to depth 4 (quick) / 5 (thorough) on the full alphabet and 5/7 on the reduced one; the rebuilt view's length is compared with the limit after each individual diff (inside batches too) and for the initial values.",
